@@ -380,19 +380,28 @@ def gen_flatten2(rng):
     pr = _perm(rng, ranks)
     g1, g2 = pr[:2], pr[2:]
     part = {}
-    pre = None
-    if rng.random() < 0.35:
-        # the second group contains a rank level that only exists after a shape split (sigma pattern)
-        pre = rng.choice(g2)
-        part[pre] = ["uniform_shape(%d)" % rng.choice([2, 3, 4])]
-        g2 = [x + "0" if x == pre else x for x in g2]
+    pres = [None, None]
+    # a group may contain a rank level that only exists after a split of that rank: by shape (static) or by
+    # occupancy led by A (dynamic: the flattening then becomes applicable inside the loop over the upper level)
+    both = rng.random() < 0.15
+    for gi, g in enumerate((g1, g2)):
+        if both or (gi == 1 and rng.random() < 0.35):
+            pre = rng.choice(g)
+            if both or rng.random() < 0.3:
+                part[pre] = ["uniform_occupancy(A.%d)" % rng.choice([2, 3, 4])]
+            else:
+                part[pre] = ["uniform_shape(%d)" % rng.choice([2, 3, 4])]
+            pres[gi] = pre
+    g1 = [x + "0" if x == pres[0] else x for x in g1]
+    g2 = [x + "0" if x == pres[1] else x for x in g2]
+    pre = pres[1]
     part["(%s, %s)" % tuple(g1)] = ["flatten()"]
     part["(%s, %s)" % tuple(g2)] = ["flatten()"]
     f1, f2 = "".join(g1), "".join(g2)
-    groups = [[f1], ([pre + "1"] if pre else []) + [f2]]
-    if rng.random() < 0.4:
+    groups = [([pres[0] + "1"] if pres[0] else []) + [f1], ([pres[1] + "1"] if pres[1] else []) + [f2]]
+    if rng.random() < 0.4 and not both:
         part[f1] = ["uniform_occupancy(A.%d)" % rng.choice([1, 2, 3])]
-        groups[0] = [f1 + "1", f1 + "0"]
+        groups[0] = groups[0][:-1] + [f1 + "1", f1 + "0"]
     spec["partitioning"] = {"Z": part}
     if rng.random() < 0.75:
         spec["loop_order"] = {"Z": loop_order_over(rng, groups, "ordered")}
